@@ -591,6 +591,20 @@ def packing_roundtrip_oracle(ctx, rng, ncases):
             problems.append("data")
         if S._normalize_output != should_norm:
             problems.append("normalize-decision")
+        if not problems and S._normalize_output:
+            # the normalisation itself: hand _restore_state twice the state
+            # (plus, for a density matrix, a trace-free nilpotent part so that
+            # trace and trace-norm differ); exact because the divisor is 2
+            from qutip.core.superoperator import stack_columns as _stk
+            ex = expect.full()
+            pert = np.zeros_like(ex)
+            if ex.shape[1] > 1:
+                pert[0, ex.shape[0] - 1] = 3
+            s2 = qutip.Qobj(2 * ex + pert, dims=expect.dims).to("dense")
+            d2 = _stk(s2.data) if stacked else s2.data
+            back2 = S._restore_state(d2, copy=True)
+            if not np.array_equal(back2.full(), ex + pert / 2):
+                problems.append("normalisation-value")
         ctx.count_case(("roundtrip",) + key, nontrivial=True)
         for p in problems:
             ctx.violation("oracle:Solver._prepare_state/_restore_state", [solver_kind, form, p],
@@ -946,29 +960,38 @@ def run_validation(ctx, rng, tabs):
 # =====================================================================
 def tableau_search(ctx, failed, log):
     """A tableau obligation no longer checks: show the effect on the real
-    implementation (one step of y' = i y against exp, to the method's own
-    order) so that the report carries a concrete failing input."""
+    implementation.  One step of y' = M y (2x2) with step sizes 1, 1/2 ... 1/16
+    against expm: the local error of a method of order p must fall by about
+    2^(p+1) per halving (checked with slack 4, only where the error is above
+    rounding).  A perturbed coefficient adds a term delta*dt^k with k <= p that
+    dominates for small dt."""
     import qutip
+    import scipy.linalg as sl
     from qutip.solver.integrator.explicit_rk import Explicit_RungeKutta
     found = False
+    M = np.array([[0, 1j], [1j, 0.5j]])
+    y0 = np.array([[1.0 + 0j], [0.5]])
+    dts = [1.0, 0.5, 0.25, 0.125, 0.0625]
     for name, order in (("rk4", 4), ("vern7", 7), ("vern9", 9)):
         errs = []
-        for dt in (0.5, 0.25):
-            qevo = qutip.QobjEvo(qutip.Qobj(np.array([[1j]])))
-            ode = Explicit_RungeKutta(qevo, rtol=1e-6, atol=1e200, nsteps=10, first_step=dt,
-                                      min_step=0, max_step=dt, interpolate=False, method=name)
-            ode.set_initial_value(qutip.data.Dense(np.array([[1.0 + 0j]])), 0.0)
+        for dt in dts:
+            ode = Explicit_RungeKutta(qutip.QobjEvo(qutip.Qobj(M)), rtol=1e-6, atol=1e200, nsteps=10,
+                                      first_step=dt, min_step=0, max_step=dt, interpolate=False,
+                                      method=name)
+            ode.set_initial_value(qutip.data.Dense(y0.copy()), 0.0)
             ode.integrate(dt)
-            errs.append(abs(ode.y.to_array()[0, 0] - np.exp(1j * dt)))
-        # local error must scale like dt^(order+1): halving dt gains 2^(order+1)
-        bound = 2.0 * 0.5 ** (order + 1) / math.factorial(order + 1)
-        if errs[0] > max(bound, 1e-14) * 50 or (errs[0] > 1e-13 and errs[0] / max(errs[1], 1e-300) < 2 ** (order - 0.5)):
-            found = True
-            ctx.violation("tableau:%s" % name, "local-order-lost",
-                          "one step of y'=iy with method %s: local error %.3e (dt=.5), %.3e (dt=.25); "
-                          "expected O(dt^%d)" % (name, errs[0], errs[1], order + 1),
-                          {"kind": "tableau", "method": name, "errors": errs,
-                           "failed_theorems": failed, "log": log[-1500:]}, found_input=True)
+            errs.append(float(np.linalg.norm(ode.y.to_array() - sl.expm(M * dt) @ y0)))
+        for a, b, dt in zip(errs, errs[1:], dts):
+            if b > 2e-15 and a / b < 2.0 ** (order + 1) / 4:
+                found = True
+                ctx.violation("tableau:%s" % name, "local-order-lost",
+                              "one step of y' = M y with method %s: local error %.3e at dt=%g but %.3e "
+                              "at dt=%g (ratio %.1f, order %d needs about %d)"
+                              % (name, a, dt, b, dt / 2, a / b, order, 2 ** (order + 1)),
+                              {"kind": "tableau", "method": name, "M": [[str(x) for x in r] for r in M],
+                               "y0": [str(x[0]) for x in y0], "dts": dts, "errors": errs,
+                               "failed_theorems": failed, "log": log[-1500:]}, found_input=True)
+                break
     return found
 
 
